@@ -18,6 +18,8 @@ import (
 	"sync"
 	"syscall"
 	"time"
+
+	"github.com/yaricom/goNEAT/v4/neat"
 )
 
 // ---------------------------------------------------------------------------------------------------------------------
@@ -136,6 +138,14 @@ func (c *Ctx) beginCase(idx int) {
 	c.G = rand.New(rand.NewSource(cs))
 	// the library's global source
 	rand.Seed(int64(splitmix(uint64(cs)) >> 1))
+	// the log level is an option setting like any other (process-wide): one case in eight runs at the debug level, whose extra
+	// code paths then execute (the loggers themselves are silenced in main)
+	if splitmix(uint64(cs)+0x10c)%8 == 0 {
+		neat.LogLevel = neat.LogLevelDebug
+		c.Count("cases.at_debug_log_level", 1)
+	} else {
+		neat.LogLevel = neat.LogLevelError
+	}
 }
 
 // Eval counts evaluations (cases / operator applications / epochs / queries - as stated in the rule of the property)
